@@ -206,7 +206,7 @@ fn dec(r: &mut Rng, comma: bool, lo: f64, hi: f64, decimals: usize) -> (String, 
 }
 
 /// KyGananciasSolares.txt in the old and new column layouts, with either decimal separator
-pub fn kyg_files(r: &mut Rng, n: usize, findings: &mut Vec<Value>) -> Value {
+pub fn kyg_files(r: &mut Rng, n: usize, findings: &mut Vec<Value>, texts: &mut Vec<String>) -> Value {
     let mut fields = 0usize;
     for doc in 0..n {
         let new_layout = r.chance(1, 2);
@@ -278,6 +278,7 @@ pub fn kyg_files(r: &mut Rng, n: usize, findings: &mut Vec<Value>) -> Value {
         }
         let eol = if crlf { "\r\n" } else { "\n" };
         let text = lines.join(eol) + eol;
+        texts.push(text.clone());
         let t2 = text.clone();
         let parsed = match crate::guarded(std::panic::AssertUnwindSafe(move || hulc::kyg::parse(&t2).map_err(|e| e.to_string()))) {
             Ok(Ok(k)) => k,
@@ -408,4 +409,52 @@ pub fn tbl_files(r: &mut Rng, n: usize, out_dir: &str, findings: &mut Vec<Value>
     }
     let _ = std::fs::remove_file(&path);
     json!({"tbl_files": n, "tbl_fields_compared": fields})
+}
+
+fn num(x: f32) -> String {
+    if x.is_nan() {
+        "INan".into()
+    } else if x.is_infinite() {
+        format!("(IInf {})", crate::coq::b(x < 0.0))
+    } else {
+        format!("(INum {})", crate::coq::q(x))
+    }
+}
+
+/// a KyGananciasSolares.txt text with what hulc::kyg::parse makes of it, as a Coq case
+pub fn kyg_case(text: &str) -> (String, usize) {
+    use crate::p18::{clines, cstr};
+    let t = text.to_string();
+    let (it, cls) = match crate::guarded(std::panic::AssertUnwindSafe(move || hulc::kyg::parse(&t).map_err(|e| e.to_string()))) {
+        Ok(Ok(k)) => {
+            let walls: Vec<String> = k
+                .walls
+                .values()
+                .map(|w| {
+                    let ext = match (&w.wtype, &w.orientation, &w.cons) {
+                        (Some(a), Some(b), Some(c)) => format!("(Some ({}, {}, {}))", cstr(a), cstr(b), cstr(c)),
+                        _ => "None".to_string(),
+                    };
+                    format!("mkIW {} {} {} {} {}", cstr(&w.name), num(w.a), num(w.u), num(w.btrx), ext)
+                })
+                .collect();
+            let wins: Vec<String> = k
+                .windows
+                .values()
+                .map(|w| {
+                    let ext = match (w.ggln, w.unknown1, w.unknown2, w.infcoeff_100, &w.cons) {
+                        (Some(g), Some(a), Some(b), Some(i), Some(c)) => format!("(Some ({}, {}, {}, {}, {}))", num(g), num(a), num(b), num(i), cstr(c)),
+                        _ => "None".to_string(),
+                    };
+                    format!("mkIN {} {} {} {} {} {} {} {}", cstr(&w.name), num(w.a), num(w.u), num(w.ff), cstr(&w.orientation), num(w.azimuth_n), num(w.fshobst), ext)
+                })
+                .collect();
+            let tbs: Vec<String> = k.thermal_bridges.values().map(|t| format!("mkIT {} {} {} {}", cstr(&t.name), num(t.l), num(t.psi), cstr(&t.sisdim))).collect();
+            let hf: Vec<String> = k.hfactors.iter().map(|x| num(*x)).collect();
+            (format!("KOk (mkIK [{}] [{}] [{}] {} [{}])", walls.join("; "), wins.join("; "), tbs.join("; "), num(k.k), hf.join("; ")), 0)
+        }
+        Ok(Err(_)) => ("KErr".to_string(), 1),
+        Err(_) => ("KPanic".to_string(), 2),
+    };
+    (format!("CKyg (mkKC {}\n ({}))", clines(text), it), cls)
 }
